@@ -14,6 +14,7 @@ import ast
 import itertools
 import re
 
+from pv.q import text as qtext
 from pv.model import AnalysisError, UNKNOWN, walk_no_nested
 from pv.handlers import HandlerTable
 from pv.identify import IdentifyModels, Unmodelled
@@ -57,14 +58,14 @@ def rule_a(model, rep, table):
             rep.check(loc == mod, R, site("passlib.hash", a), f"hash.py imports {a} from {mod}; registry says {loc}", "both tables name the same module")
     # registry consistency check itself
     fn = model.func(REG, "register_crypt_handler")
-    rep.check("if _attr and _attr != name:" in ast.unparse(fn), R, site(REG, "register_crypt_handler"), "if _attr and _attr != name: raise",
+    rep.check("if _attr and _attr != name:" in qtext(fn), R, site(REG, "register_crypt_handler"), "if _attr and _attr != name: raise",
               "lazy loading verifies handler.name against the requested name")
     fn = model.func(REG, "get_crypt_handler")
-    rep.check("register_crypt_handler(handler, _attr=name)" in ast.unparse(fn), R, site(REG, "get_crypt_handler"), "register_crypt_handler(handler, _attr=name)",
+    rep.check("register_crypt_handler(handler, _attr=name)" in qtext(fn), R, site(REG, "get_crypt_handler"), "register_crypt_handler(handler, _attr=name)",
               "lazy loader passes the requested name for that check")
     # proxy: passlib.hash.<name> is served from the registry
     fn = model.func(REG, "_PasslibRegistryProxy.__getattr__")
-    rep.check("get_crypt_handler(attr" in ast.unparse(fn), R, site(REG, "_PasslibRegistryProxy.__getattr__"), "get_crypt_handler(attr, ...)",
+    rep.check("get_crypt_handler(attr" in qtext(fn), R, site(REG, "_PasslibRegistryProxy.__getattr__"), "get_crypt_handler(attr, ...)",
               "passlib.hash.<name> resolves through get_crypt_handler")
     rep.minimum(R, 76)
 
